@@ -21,6 +21,7 @@ type G struct {
 	started bool
 	crashed *goPanic
 	watchdog bool
+	killed   bool
 	fn      Value
 	args    []Value
 }
@@ -157,6 +158,11 @@ func (p *Path) startG(g *G) {
 				case pathAbort:
 					if s.fatal == nil {
 						s.fatal = x
+					}
+				case crashSignal:
+					// a crash point fired in a goroutine other than the one inside RunUntilCrash
+					if s.fatal == nil {
+						s.fatal = pathAbort{"unsupported", "crash point reached outside zz.RunUntilCrash (" + x.at + ")"}
 					}
 				case goPanic:
 					// panic escaped a goroutine: process crash
